@@ -6,6 +6,8 @@ cd "$(dirname "$0")"
 export CARGO_NET_OFFLINE=true
 cargo kani --version >/dev/null
 z3 --version >/dev/null
+z3-new --version >/dev/null
+cargo +nightly --version >/dev/null
 cvc5 --version >/dev/null 2>&1 || true
 python3 -c "import json,subprocess,re" 
 mkdir -p /var/tmp/cooklang-verif evidence logs replays
